@@ -1,6 +1,11 @@
 import GB.C15.ProofsPoll
 import GB.C15.ProofsWake
 import GB.C15.ProofsExtra
+import GB.C15.ProofsOnce
+import GB.C15.Agg
+import GB.C15.ProofsTimed
+import GB.C15.ProofsFair
+import GB.C15.ProofsFairEx
 import GB.Generated.Facts
 /-
   C15 — description updates are delivered exactly when the target's contract changes.
@@ -532,3 +537,391 @@ example :
       [[.update 1], [], [.reportError .unavailable], [], [.reportError .other], [.update 2], [.update 1]] ∧
     (finalState (fun b => b) (RState.init Bytes) exHistory).methodPriority = [.v1alpha, .v1] := by
   decide
+
+/-! ## round 5 — (3) `sync.Once` as an LTS, used as a lemma -/
+
+/-- **sync.Once, any number of callers** (statement-level LTS of `Once.Do`/`doSlow`: fast-path load,
+    mutex, second check, `f()`, deferred `done.Store(1)`, deferred `Unlock`). In every reachable state:
+    `f` has been entered at most once and returned at most as often as entered; at most one caller is
+    inside the mutex; EVERY caller that has returned finds `f` executed exactly once AND completed
+    (nobody returns before the winner finished `f`); and while a caller is inside `Do` some step is
+    enabled (no deadlock). -/
+theorem C15_once_exactly_one (s : Once.S) (h : GB.LTS.Reachable Once.step Once.S.init s) :
+    s.execs ≤ 1 ∧ s.completed ≤ s.execs ∧
+    (∀ i j, Once.crit (s.pc i) = true → Once.crit (s.pc j) = true → i = j) ∧
+    (∀ i, s.pc i = .returned → s.done = true ∧ s.execs = 1 ∧ s.completed = 1) ∧
+    (∀ i, s.pc i ≠ .idle → s.pc i ≠ .returned → ∃ l s', Once.step s l = some s') := by
+  have hi := Once.inv_reachable s h
+  have hcount : s.execs ≤ 1 ∧ s.completed ≤ s.execs := by
+    cases hd : s.done with
+    | true => have := hi.hd hd; omega
+    | false =>
+      by_cases hex : ∀ i, s.pc i ≠ .running ∧ s.pc i ≠ .storing
+      · have := hi.hn hd hex; omega
+      · have : ∃ i, s.pc i = .running ∨ s.pc i = .storing := by
+          apply Classical.byContradiction
+          intro hne
+          apply hex
+          intro i
+          constructor <;> intro hp <;> exact hne ⟨i, by simp [hp]⟩
+        obtain ⟨i, hr | hr⟩ := this
+        · have := hi.hrun i hr; omega
+        · have := hi.hst i hr; omega
+  refine ⟨hcount.1, hcount.2, ?_, ?_, ?_⟩
+  · intro i j hci hcj
+    have h1 := hi.hc i hci
+    have h2 := hi.hc j hcj
+    rw [h1] at h2
+    exact (Option.some.inj h2)
+  · intro i hr
+    have hd := hi.hr i hr
+    exact ⟨hd, hi.hd hd⟩
+  · intro i h1 h2
+    exact Once.progress s hi i h1 h2
+
+/-- **The abstraction the wake-up LTS makes of `sync.OnceFunc` is a refinement, not an assumption.**
+    Each step of the real Once is invisible or is exactly one step of the per-generation fragment
+    `fire` (test-and-set; a LOSER's `fire` only once the channel close has completed) / `closeCh`
+    (`f` returned) — a forward simulation from the initial states on. -/
+theorem C15_once_abstraction :
+    Once.R Once.S.init { pc := fun _ => .loaded, fired := false, closed := false } ∧
+    ∀ (s s' : Once.S) (a : Once.A) (l : Once.L), GB.LTS.Reachable Once.step Once.S.init s → Once.R s a →
+      Once.step s l = some s' → Once.R s' a ∨ ∃ l' a', Once.astep a l' = some a' ∧ Once.R s' a' :=
+  ⟨Once.R_init, fun s s' a l h hr hs => Once.refines s s' a l (Once.inv_reachable s h) hr hs⟩
+
+/-- **`ResolveNow` returns after the signal is written.** `stepO` is the wake-up LTS with the guard
+    proved above (a caller that lost the once waits for the winner's `close(ch)`). Its reachable states
+    are reachable states of `step` (so `C15_no_lost_wakeup`, `C15_close`, … apply verbatim), the
+    poller's and the winner's steps are the same (so do the progress theorems), and additionally every
+    call that has returned has its generation's channel CLOSED — hence the poller, which cannot re-arm
+    before that close, is woken by it or was already past it. -/
+theorem C15_resolve_now_returns_after_signal (manual : Bool) (s : W)
+    (h : GB.LTS.Reachable stepO (W.init manual) s) :
+    GB.LTS.Reachable step (W.init manual) s ∧
+    (∀ l, isProtocol l = true → stepO s l = step s l) ∧
+    (∀ i, (s.callers i).pc = .finished → (s.callers i).gen ∈ s.closed ∧
+      ((s.callers i).served = true ∨ Coming s ∨ s.closer ≠ .idle)) := by
+  have hr := reachableO_reachable manual s h
+  refine ⟨hr, fun l hl => stepO_protocol s l hl, fun i hf => ⟨retClosed_reachable manual s h i hf, ?_⟩⟩
+  exact C15_no_lost_wakeup manual s hr i hf
+
+/-- The sharper guard matters: in `step` a loser can return while the channel is still open; `stepO` refuses that step. -/
+example :
+    ((GB.LTS.run step (W.init true) [.load 0, .load 1, .fire 0, .fire 1]).map
+      (fun s => ((s.callers 1).pc, s.closed))) = some (.finished, []) ∧
+    (GB.LTS.run stepO (W.init true) [.load 0, .load 1, .fire 0, .fire 1]).isNone = true ∧
+    ((GB.LTS.run stepO (W.init true) [.load 0, .load 1, .fire 0, .closeCh 0, .fire 1]).map
+      (fun s => ((s.callers 1).pc, s.closed))) = some (.finished, [0]) := by decide
+
+/-! ## round 5 — (1) `aggregateWatcher` over its members, all interleavings with `Close` -/
+
+/-- **Fan-out, every interleaving.** `Agg.step` lets the poller's calls on the aggregate (member by
+    member) interleave arbitrarily with the aggregate's `Close()` (member by member, on the goroutine of
+    `ReflectionRouter.Remove`). In every reachable state, for every member `j`: what it has applied is a
+    prefix of the calls it was offered — in the resolver's order, none twice, none invented — and an
+    OPEN member has applied all of them (exactly once per change); the offered sequences are prefixes of
+    the one call sequence of the resolver, so any two members agree up to a suffix; with no `Close`
+    called and no call in progress all members hold exactly the calls made; and `Close` never meets a
+    member that is already closed (the members' "called multiple times" panic is unreachable). -/
+theorem C15_aggregate_members_all_interleavings {α : Type} (n : Nat) (s : Agg.G α)
+    (h : GB.LTS.Reachable Agg.step (Agg.G.init n) s) :
+    s.n = n ∧
+    (∀ j, j < n → s.applied j <+: Agg.offered s j ∧ (s.closed j = false → s.applied j = Agg.offered s j)) ∧
+    (∀ j, j < n → Agg.offered s j <+: s.past ++ s.cur.toList) ∧
+    (s.cpos = none → s.cur = none → ∀ j, j < n → s.applied j = s.past) ∧
+    (∀ i j, i < n → j < n → s.applied i <+: s.applied j ∨ s.applied j <+: s.applied i) ∧
+    (∀ k, s.cpos = some k → k < n → s.closed k = false) := by
+  have hn := Agg.n_reachable n s h
+  have hi := Agg.inv_reachable n s h
+  have hoff : ∀ j, Agg.offered s j <+: s.past ++ s.cur.toList := by
+    intro j
+    unfold Agg.offered
+    cases hc : s.cur with
+    | none => simp
+    | some e => simp only [Option.toList]; split <;> simp
+  refine ⟨hn, fun j hj => hi.a j (hn ▸ hj), fun j _ => hoff j, ?_, ?_, ?_⟩
+  · intro hc hcur j hj
+    have hop : s.closed j = false := by
+      cases hcl : s.closed j with
+      | false => rfl
+      | true => obtain ⟨k, hk, _⟩ := hi.c2 j hcl; simp [hc] at hk
+    have := (hi.a j (hn ▸ hj)).2 hop
+    simpa [Agg.offered, hcur] using this
+  · intro i j hi' hj
+    exact List.prefix_or_prefix_of_prefix ((hi.a i (hn ▸ hi')).1.trans (hoff i)) ((hi.a j (hn ▸ hj)).1.trans (hoff j))
+  · intro k hk _
+    cases hcl : s.closed k with
+    | false => rfl
+    | true =>
+      obtain ⟨k', hk', hlt⟩ := hi.c2 k hcl
+      rw [hk] at hk'
+      simp at hk'
+      omega
+
+/-- **Nothing after the aggregate's `Close` returned.** Once `Close()` has gone through all members
+    (`cpos = some n`) every member is closed, and along EVERY further execution — the resolver keeps
+    polling until `resolver.Close()`, which `Remove` calls only afterwards — no member applies anything. -/
+theorem C15_aggregate_nothing_after_close {α : Type} (n : Nat) (s : Agg.G α)
+    (h : GB.LTS.Reachable Agg.step (Agg.G.init n) s) (hc : s.cpos = some n) :
+    (∀ j, j < n → s.closed j = true) ∧
+    ∀ (ls : List (Agg.L α)) (s' : Agg.G α), GB.LTS.run Agg.step s ls = some s' →
+      ∀ j, j < n → s'.applied j = s.applied j := by
+  have hn := Agg.n_reachable n s h
+  have hi := Agg.inv_reachable n s h
+  refine ⟨fun j hj => (hi.c1 n hc).2 j hj, ?_⟩
+  have tail : ∀ (ls : List (Agg.L α)) (a b : Agg.G α), Agg.Inv a → a.n = n → a.cpos = some n →
+      GB.LTS.run Agg.step a ls = some b → ∀ j, j < n → b.applied j = a.applied j := by
+    intro ls
+    induction ls with
+    | nil => intro a b _ _ _ hr j _; simp [GB.LTS.run] at hr; rw [hr]
+    | cons l rest ih =>
+      intro a b hia hna hca hr j hj
+      simp only [GB.LTS.run] at hr
+      cases hst : Agg.step a l with
+      | none => simp [hst] at hr
+      | some a1 =>
+        rw [hst] at hr
+        have hfr := Agg.closed_frozen a a1 l hia (hna ▸ hca) hst
+        have hn1 : a1.n = n := (Agg.n_const a a1 l hst).trans hna
+        have := ih a1 b (Agg.inv_step a a1 l hia hst) hn1 (hn1 ▸ hfr.1) hr j hj
+        rw [this, hfr.2 j (hna ▸ hj)]
+  exact fun ls s' hr => tail ls s s' hi hn hc hr
+
+/-- **What a panicking (or blocking) member does to the others — the code as it is.** Nothing recovers a
+    panic of `w.UpdateDesc`: the range loop is abandoned and the poller goroutine is gone. In such a
+    state a call `e` is in progress at some member `pos < n`; the open members before `pos` have applied
+    `e`, the open members from `pos` on have NOT (the delivery is not atomic across members), and the
+    only steps left in the system are those of `Close` — no later change reaches anybody. (A member
+    that blocks is the same picture without `dead`: `deliver` is simply never taken.) -/
+theorem C15_aggregate_member_panic_splits {α : Type} (n : Nat) (s : Agg.G α)
+    (h : GB.LTS.Reachable Agg.step (Agg.G.init n) s) (hd : s.dead = true) :
+    ∃ e, s.cur = some e ∧ s.pos < n ∧
+      (∀ j, j < n → s.closed j = false → s.applied j = if j < s.pos then s.past ++ [e] else s.past) ∧
+      (∀ l s', Agg.step s l = some s' → l = .closeCall ∨ l = .closeMember) := by
+  have hn := Agg.n_reachable n s h
+  have hi := Agg.inv_reachable n s h
+  obtain ⟨hsome, hpos⟩ := Agg.dead_reachable n s h hd
+  obtain ⟨e, he⟩ := Option.isSome_iff_exists.mp hsome
+  refine ⟨e, he, hn ▸ hpos, fun j hj hop => ?_, fun l s' hs => ?_⟩
+  · have := (hi.a j (hn ▸ hj)).2 hop
+    simpa [Agg.offered, he] using this
+  · cases l <;> simp only [Agg.step] at hs
+    case closeCall => exact Or.inl rfl
+    case closeMember => exact Or.inr rfl
+    all_goals (repeat' split at hs)
+    all_goals simp_all
+
+/-- Non-vacuity: (i) two members, one change, no Close: both have it; (ii) `Close` between the two
+    deliveries of a change: member 0 applied it, member 1 was closed first — the lists differ by a
+    suffix, and a change after `Close` returned reaches nobody; (iii) member 1 panics: 0 has the change, 1 not. -/
+example :
+    ((GB.LTS.run Agg.step (Agg.G.init (α := Nat) 2) [.begin 7, .deliver, .deliver, .finish]).map
+      (fun s => (s.applied 0, s.applied 1, s.past))) = some ([7], [7], [7]) ∧
+    ((GB.LTS.run Agg.step (Agg.G.init (α := Nat) 2)
+        [.begin 7, .deliver, .closeCall, .closeMember, .closeMember, .deliver, .finish, .begin 8, .deliver, .deliver, .finish]).map
+      (fun s => (s.applied 0, s.applied 1, s.past, s.cpos))) = some ([7], [], [7, 8], some 2) ∧
+    ((GB.LTS.run Agg.step (Agg.G.init (α := Nat) 2) [.begin 7, .deliver, .deliverPanic]).map
+      (fun s => (s.applied 0, s.applied 1, s.dead, s.pos))) = some ([7], [], true, 1) := by decide
+
+/-- Regenerated wiring facts: each of the aggregate's three methods is one `range a.watchers` loop making the same
+    call on every member (`Agg.step`: `deliver` / `closeMember` walk the members in order); `Add` builds the aggregate
+    over exactly [pattern watcher, service watcher] and hands IT to `resolverBuilder.Build`; `Remove` closes the
+    watchers BEFORE the resolver (so calls on a closed aggregate do occur: `C15_aggregate_nothing_after_close`). -/
+theorem C15_facts_aggregate :
+    GB.Generated.aggregateWiring =
+      ["UpdateDesc:range-watchers:hook:aggregate.update.member,w.UpdateDesc", "ReportError:range-watchers:w.ReportError", "Close:range-watchers:w.Close",
+       "Add:members:patternWatcher,serviceWatcher", "Add:Build(name,watcher)",
+       "Remove:watcher.Close,resolver.Close,poolController.Close"] := by
+  decide
+
+/-! ## round 5 — (2) the timer-driven loop, (4) fairness as a predicate on runs and eventual delivery -/
+
+/-- `afterInterval`: nil channel when polling manually (the `timer` step needs `manual = false`), otherwise a FRESH
+    `time.After(PollInterval)` evaluated when the select is entered (`tstep`: `pollEnd` sets `deadline := now + interval`). -/
+theorem C15_facts_after_interval :
+    GB.Generated.resolverAfterInterval = ["if:PollManually:return-nil", "return:time.After(PollInterval)"] := by
+  decide
+
+/-- **The timed loop is the wake-up protocol plus a clock**: every reachable state of `tstep` (clock ticks, contract
+    changes, failing and successful polls, timer, `ResolveNow` callers, `Close`, in ANY interleaving) projects to a
+    reachable state of `step`. Hence: no callback after `Close` returned; once `Close` has returned no poll starts or
+    ends whatever the clock says (a `Close` during a slow poll or during the sleep is final); and no `ResolveNow`
+    is lost (`C15_no_lost_wakeup`) — timer ticks and manual polls do not disturb each other. -/
+theorem C15_timer_loop_safety (manual : Bool) (iv c : Nat) (t : T)
+    (h : GB.LTS.Reachable tstep (T.init manual iv c) t) :
+    GB.LTS.Reachable step (W.init manual) t.w ∧ t.w.cbAfterClose = false ∧
+    (t.w.closer = .returned → (t.w.ppc = .gotDone ∨ t.w.ppc = .exited) ∧
+      ∀ a t', tstep t a = some t' → a ≠ .l .pollStart ∧ a ≠ .pollFail ∧ a ≠ .l .timer ∧ ∀ cb, a ≠ .l (.pollEnd cb)) ∧
+    (∀ i, (t.w.callers i).pc = .finished → (t.w.callers i).served = true ∨ Coming t.w ∨ t.w.closer ≠ .idle) := by
+  have hr := treach_proj manual iv c t h
+  have hi := inv_reachable manual t.w hr
+  refine ⟨hr, hi.f, fun hret => ⟨hi.e2 (Or.inr hret), fun a t' hs => ?_⟩, fun i hf => C15_no_lost_wakeup manual t.w hr i hf⟩
+  have key : ∀ l, erase a = some l → l = .closeDone ∨ ∃ i, l = .load i ∨ l = .fire i ∨ l = .closeCh i := by
+    intro l he
+    rcases tstep_proj t t' a hs with ⟨he', _⟩ | ⟨l', he', hw⟩
+    · rw [he] at he'; cases he'
+    · rw [he] at he'; cases he'
+      exact after_close_only_exit t.w t'.w l hi hret hw
+  refine ⟨fun e => ?_, fun e => ?_, fun e => ?_, fun cb e => ?_⟩ <;> subst e
+  · rcases key _ rfl with h | ⟨i, h | h | h⟩ <;> cases h
+  · rcases key _ rfl with h | ⟨i, h | h | h⟩ <;> cases h
+  · rcases key _ rfl with h | ⟨i, h | h | h⟩ <;> cases h
+  · rcases key _ rfl with h | ⟨i, h | h | h⟩ <;> cases h
+
+/-- **The interval lies BETWEEN polls; polls never overlap.** Whenever the select's timer case is taken, the poller
+    is in the select (the previous poll, however slow, has ended), interval polling is on, and at least
+    `PollInterval` has passed since that poll ENDED. -/
+theorem C15_timer_spacing (manual : Bool) (iv c : Nat) (t t' : T)
+    (h : GB.LTS.Reachable tstep (T.init manual iv c) t) (hs : tstep t (.l .timer) = some t') :
+    t.w.ppc = .atSelect ∧ t.w.manual = false ∧ t.lastEnd + iv ≤ t.now ∧ t'.w.ppc = .top := by
+  obtain ⟨⟨hd, _⟩, hiv⟩ := clock_reachable manual iv c t h
+  simp only [tstep] at hs
+  split at hs
+  · rename_i hle
+    simp only [Option.map_eq_some_iff] at hs
+    obtain ⟨w', hw, rfl⟩ := hs
+    simp only [step] at hw; split at hw <;> simp at hw
+    rename_i hp
+    subst hw
+    exact ⟨hp.1, hp.2, by rw [← hiv]; omega, rfl⟩
+  · simp at hs
+
+/-- **`Close` during the sleep does not wait for the interval**: with the poller asleep in its select and a `Close`
+    call pending, the rendezvous on `done` is enabled at once, whatever the clock and the deadline are; after it
+    neither the timer nor a poll start is possible. (`Close` during a poll: `takeDone` needs `atSelect`, so it is
+    served right after that poll — `C15_timer_loop_safety` covers what follows.) -/
+theorem C15_close_during_sleep (t : T) (hp : t.w.ppc = .atSelect) (hc : t.w.closer = .sending) :
+    ∃ t', tstep t (.l .takeDone) = some t' ∧ t'.w.ppc = .gotDone ∧ t'.w.closer = .sent ∧
+      tstep t' (.l .timer) = none ∧ tstep t' (.l .pollStart) = none := by
+  refine ⟨{ t with w := { t.w with ppc := .gotDone, closer := .sent } }, by simp [tstep, step, hp, hc], rfl, rfl, ?_, ?_⟩
+  · simp only [tstep]; split <;> simp [step]
+  · simp [tstep, step]
+
+/-- **Liveness from an explicit fairness predicate (timer-driven loop).** On every infinite run of the timed system
+    from the initial state with interval polling on, in which `Close` is never called, the poller goroutine is
+    treated weakly fairly (`FairPoller`: again and again it takes a step or is not runnable) and time diverges
+    (`TimeDiverges`), polls start again and again — whatever the `ResolveNow` callers, contract changes and failing
+    polls in between. -/
+theorem C15_polls_forever_on_fair_runs (iv c0 : Nat) (st : Nat → T) (lb : Nat → TL) (hrun : IsRun st lb)
+    (h0 : st 0 = T.init false iv c0) (hfair : FairPoller st lb) (htime : TimeDiverges lb) (hnc : NoClose lb) :
+    ∀ k, ∃ i, k ≤ i ∧ lb i = .l .pollStart := by
+  have hj0 : J (st 0) := by rw [h0]; exact ⟨inv_init false, rfl, rfl⟩
+  intro k
+  exact eventually_pollStart st lb hrun hfair htime hnc _ k (J_run st lb hrun hnc hj0 k) (Nat.le_refl _)
+
+/-- **Every change that persists is eventually delivered, on every fair run.** Same runs as above. If from some
+    point `k0` on the target presents the contract `c` (no further change) and polls do not fail, then from some
+    point on the contract last handed to the watcher is `c` — forever. (The delivery rule of `tstep` is the
+    specification's: a successful poll delivers what it fetched iff it differs from the last delivered contract —
+    `C15_updates` proves the bookkeeping implements exactly that; `C15_aggregate_members_all_interleavings` carries
+    it to both routers.) -/
+theorem C15_persistent_change_eventually_delivered (iv c0 : Nat) (st : Nat → T) (lb : Nat → TL) (hrun : IsRun st lb)
+    (h0 : st 0 = T.init false iv c0) (hfair : FairPoller st lb) (htime : TimeDiverges lb) (hnc : NoClose lb)
+    (k0 c : Nat) (htar : ∀ j, k0 ≤ j → (st j).target = c) (hnf : ∀ j, k0 ≤ j → lb j ≠ .pollFail) :
+    ∃ k1, k0 ≤ k1 ∧ ∀ j, k1 ≤ j → (st j).delivered = some c := by
+  obtain ⟨i1, hi1, hps⟩ := C15_polls_forever_on_fair_runs iv c0 st lb hrun h0 hfair htime hnc k0
+  have hrun1 := hrun i1
+  rw [hps] at hrun1
+  have hf1 : Fetching c (st (i1 + 1)) := by
+    have := pollStart_fetches _ _ hrun1
+    rwa [htar i1 hi1] at this
+  -- the poll ends
+  have hsettle : ∃ k1, k0 ≤ k1 ∧ Settled c (st k1) := by
+    obtain ⟨k2, hk2, hf⟩ := hfair (i1 + 1)
+    obtain ⟨m, rfl⟩ := Nat.le.dest hk2
+    rcases walk_fetching c st lb hrun k0 hnf m (i1 + 1) (by omega) hf1 with ⟨i, hi, hs⟩ | hfm
+    · exact ⟨i + 1, by omega, hs⟩
+    · rcases hf with hpol | hne
+      · rcases fetching_step c _ _ _ (hrun (i1 + 1 + m)) hfm (hnf _ (by omega)) with ⟨hnp, _⟩ | ⟨_, hs⟩
+        · rw [hpol] at hnp; cases hnp
+        · exact ⟨i1 + 1 + m + 1, by omega, hs⟩
+      · exact absurd (fetching_enabled c _ hfm) hne
+  obtain ⟨k1, hk1, hs⟩ := hsettle
+  refine ⟨k1, hk1, fun j hj => ?_⟩
+  obtain ⟨m, rfl⟩ := Nat.le.dest hj
+  exact (settled_forever c st lb hrun k0 htar hnf m k1 hk1 hs).1
+
+/-- Non-vacuity of the timed model: interval 2; the first poll delivers contract 5, the timer is refused before the
+    deadline and taken at it, an unchanged contract is polled silently, a change to 9 is delivered by the next timer
+    poll; a `pollEnd` whose callback flag contradicts the delivery rule is refused. -/
+example :
+    ((GB.LTS.run tstep (T.init false 2 5) [.l .pollStart, .tick, .l (.pollEnd true), .tick, .l .timer]).isNone = true) ∧
+    ((GB.LTS.run tstep (T.init false 2 5)
+        [.l .pollStart, .tick, .l (.pollEnd true), .tick, .tick, .l .timer, .l .pollStart, .l (.pollEnd false),
+         .change 9, .tick, .tick, .l .timer, .l .pollStart, .l (.pollEnd true)]).map
+      (fun t => (t.delivered, t.now, t.deadline, t.w.polls))) = some (some 9, 5, 7, 3) ∧
+    ((GB.LTS.run tstep (T.init false 2 5) [.l .pollStart, .l (.pollEnd false)]).isNone = true) := by decide
+
+/-- **`ResolveNow` liveness from an explicit fairness predicate** (also with `PollManually`). On every infinite run of
+    the wake-up protocol from the initial state in which `Close` is never called and the non-environment steps are
+    treated weakly fairly (`FairProtocol`: again and again a step of the poller / the channel close owed by a
+    once-winner is taken, or none is enabled): whenever a `ResolveNow` call has completed and is not yet served, a
+    poll starts later on, and from then on the call is served. (`C15_resolve_now_served_within` is the finite core:
+    8 such steps suffice and one is always enabled — fairness supplies them.) -/
+theorem C15_resolve_now_eventually_served (manual : Bool) (st : Nat → W) (lb : Nat → Lbl) (hrun : IsRunW st lb)
+    (h0 : st 0 = W.init manual) (hfair : FairProtocol st lb) (hnc : NoCloseW lb)
+    (k i : Nat) (hf : ((st k).callers i).pc = .finished) (hns : ((st k).callers i).served = false) :
+    ∃ j, k ≤ j ∧ lb j = .pollStart ∧ ∀ j', j < j' → ((st j').callers i).served = true := by
+  have hreach : ∀ n, GB.LTS.Reachable step (W.init manual) (st n) := by
+    intro n
+    have := run_seg st lb hrun n 0
+    rw [h0] at this
+    have h := GB.LTS.run_reachable step (W.init manual) (W.init manual) _ GB.LTS.Reachable.init this
+    simpa using h
+  -- Close is never called: the closer stays idle
+  have hidle : ∀ n, (st n).closer = .idle := by
+    intro n
+    induction n with
+    | zero => rw [h0]; rfl
+    | succ n ih => exact step_closer_idle _ _ _ (hrun n) ih (hnc n)
+  have core := fun m => C15_resolve_now_served_within manual (st k) (hreach k) i hf hns (hidle k)
+    (seg lb k m) (st (k + m)) (run_seg st lb hrun m k) (seg_noclose lb hnc m k)
+  -- fairness supplies as many non-environment steps as wanted, unless a poll start comes first
+  have count : ∀ n, ∃ m, Lbl.pollStart ∈ seg lb k m ∨ n ≤ ((seg lb k m).filter isProtocol).length := by
+    intro n
+    induction n with
+    | zero => exact ⟨0, Or.inr (Nat.zero_le _)⟩
+    | succ n ih =>
+      obtain ⟨m, hm⟩ := ih
+      rcases hm with hm | hm
+      · exact ⟨m, Or.inl hm⟩
+      · obtain ⟨k', hk', hfk⟩ := hfair (k + m)
+        obtain ⟨d, rfl⟩ := Nat.le.dest hk'
+        by_cases hps : Lbl.pollStart ∈ seg lb k (m + d)
+        · exact ⟨m + d, Or.inl hps⟩
+        · obtain ⟨l, t, hpl, hst⟩ := (core (m + d)).2.2 hps
+          have hen : ProtocolEnabled (st (k + m + d)) := by
+            rw [Nat.add_assoc]; exact ⟨l, t, hpl, hst⟩
+          have hprot : isProtocol (lb (k + m + d)) = true := by
+            rcases hfk with h | h
+            · exact h
+            · exact absurd hen h
+          refine ⟨m + d + 1, Or.inr ?_⟩
+          rw [seg_append lb (m + d) 1 k, seg_append lb m d k]
+          simp only [seg, List.filter_append, List.length_append, List.filter_cons, List.filter_nil]
+          rw [← Nat.add_assoc] 
+          simp only [hprot, if_true, List.length_cons, List.length_nil]
+          omega
+  obtain ⟨m, hm⟩ := count 8
+  have hin : Lbl.pollStart ∈ seg lb k m := by
+    rcases hm with h | h
+    · exact h
+    · exact (core m).1 h
+  obtain ⟨j, hj1, hj2, hj3⟩ := mem_seg lb _ m k hin
+  refine ⟨j, hj1, hj3, fun j' hj' => ?_⟩
+  obtain ⟨m', rfl⟩ := Nat.le.dest (show k ≤ j' by omega)
+  have hmem : Lbl.pollStart ∈ seg lb k m' := hj3 ▸ seg_mem lb m' k j hj1 (by omega)
+  exact (core m').2.1 hmem
+
+/-- **The fairness hypotheses are satisfiable** — there is an infinite run of the timed system from the initial state
+    (interval polling on) that is fair to the poller, on which time diverges, `Close` is never called, the target keeps
+    presenting one contract and no poll fails; so `C15_polls_forever_on_fair_runs` and
+    `C15_persistent_change_eventually_delivered` are not vacuous, and on this run the contract is delivered for good. -/
+theorem C15_fair_run_exists :
+    ∃ (st : Nat → T) (lb : Nat → TL), IsRun st lb ∧ st 0 = T.init false 0 5 ∧ FairPoller st lb ∧ TimeDiverges lb ∧ NoClose lb ∧
+      (∀ j, (st j).target = 5) ∧ (∀ j, lb j ≠ .pollFail) ∧
+      ∃ k1, ∀ j, k1 ≤ j → (st j).delivered = some 5 := by
+  refine ⟨exSt, exLb, ex_isRun, rfl, ex_fair, ex_time, fun k => (ex_labels k).1, ex_target, fun k => (ex_labels k).2, ?_⟩
+  obtain ⟨k1, _, h⟩ := C15_persistent_change_eventually_delivered 0 5 exSt exLb ex_isRun rfl ex_fair ex_time
+    (fun k => (ex_labels k).1) 0 5 (fun j _ => ex_target j) (fun j _ => (ex_labels j).2)
+  exact ⟨k1, h⟩
